@@ -1,5 +1,6 @@
 import RactorModel.Extracted
 import RactorModel.Lemmas.LifeC04
+import RactorModel.Lemmas.LifeWorld
 
 /-!
 # C04 — Failures are contained and reported to the supervisor exactly once
@@ -43,6 +44,17 @@ actor's trace is accepted by the supervision-event automaton. -/
 theorem reported_once (id : Nat) (ops : List AOp) : Life.C04.ok id (trace id ops) = true := by
   obtain ⟨s', h, _⟩ := Life.C04.run_sim id ops (Actor.init id) {} (Life.C04.inv_init id)
   simp [Life.C04.ok, trace, h, Except.isOk, Except.toBool]
+
+/-- **The same for the composed world** (what the driver replays): in every run of `World.step`
+from the empty world (one harness case: any number of actors, supervision links, effects routed
+between them), the trace projection of every actor `i` satisfies the property — because the world
+changes actors only through `Actor.step` (`Life.world_actor_run`). -/
+theorem reported_once_world (ops : List Op) (h : ∀ op ∈ ops, op ≠ .case) (i : Nat) :
+    Life.C04.ok i (projEvs i (({} : World).run ops).2) = true := by
+  obtain ⟨aops, e⟩ := world_actor_run ops h i
+  have := reported_once i aops
+  simp only [trace, e] at this
+  exact this
 
 /-- The op sequence that exhibited the former finding: a supervised child killed while idle. -/
 def witness : List AOp :=
@@ -118,6 +130,7 @@ example : Life.C04.ok 1 [.supIs (some 0), .drainRet true, .exit .postStop .ok, .
 end C04
 
 #print axioms C04.reported_once
+#print axioms C04.reported_once_world
 #print axioms C04.invariant
 #print axioms C04.prestart_failure_silent
 #print axioms C04.src_cleanup_order
